@@ -496,6 +496,14 @@ func (s *Sched) AdvanceTo(t time.Time, tieChoice bool) {
 	}
 }
 
+// SetNow moves the clock forward without firing anything (driver use: place an
+// event at an instant before the timers due at that same instant).
+func (s *Sched) SetNow(t time.Time) {
+	if t.After(s.now) {
+		s.now = t
+	}
+}
+
 // Advance is AdvanceTo(now+d).
 func (s *Sched) Advance(d time.Duration) { s.AdvanceTo(s.now.Add(d), false) }
 
